@@ -1,13 +1,21 @@
 //go:build verif
 
+// c08: concurrent ingest / render / maintenance on a real storage (built with -race).
+// N writers (each owning a series, all sharing one), M readers, periodic tasks at 5 ms. Every ingest into the shared
+// series carries one unique stack (count 1) and three common stacks c;p c;q c;r (count 1 each) in its own 10 s slot, so a read's result
+// tells exactly which ingests it contains. The harness only runs and dumps; the oracle is CorrC08.check_case.
+// Any race report (exit status 66), panic or hang makes the process fail.
 package main
 
 import (
 	"fmt"
 	"io"
+	"math/rand"
 	"os"
 	"runtime"
+	"sort"
 	"strings"
+	"sync"
 	"sync/atomic"
 	"time"
 
@@ -15,74 +23,611 @@ import (
 
 	"github.com/pyroscope-io/pyroscope/pkg/config"
 	"github.com/pyroscope-io/pyroscope/pkg/storage"
+	"github.com/pyroscope-io/pyroscope/pkg/storage/dimension"
 	"github.com/pyroscope-io/pyroscope/pkg/storage/tree"
+	"verifharness/lib"
 )
 
-func main() {
-	logrus.SetOutput(io.Discard)
-	storage.VerifDisablePeriodicTasks()
-	dir, _ := os.MkdirTemp("", "agentb-x-")
-	defer os.RemoveAll(dir)
-	st, err := storage.New(&config.Server{StoragePath: dir, CacheEvictThreshold: 0.99, CacheEvictVolume: 0.1, MaxNodesSerialization: 2048, MaxNodesRender: 2048})
+type Input struct {
+	Stream    string `json:"stream"`  // main | evict | delete | gate-miss-dimensions | gate-miss-segments
+	Writers   int    `json:"writers"` // 1..8
+	Readers   int    `json:"readers"` // 1..8
+	PerWriter int    `json:"per_writer"`
+	Labels    bool   `json:"labels"`      // the shared series has a second label (renders go through Intersection)
+	ColdStart bool   `json:"cold_start"`  // readers start before the first ingest of the shared series
+	SameSlot  bool   `json:"same_slot"`   // all ingests of the shared series fall into one 10 s slot (one tree)
+	Procs     int    `json:"procs"`
+	Seed      int64  `json:"seed"`
+}
+
+const maxReads = 40
+
+const baseTime = 1600000000 // multiple of 100; slots are baseTime + 10*k
+
+type ingestRec struct {
+	w, j       int
+	slot       int
+	start, end int64 // monotonic ns since the run began
+}
+
+type readRec struct {
+	start, end int64
+	uniq       []string // unique stacks seen with their counts "w_j=count"
+	common     uint64
+	other      uint64
+	timeline   []uint64
+	nilOut     bool
+}
+
+func flatten(n *tree.VerifNode, prefix []string, cb func(stack string, v uint64)) {
+	p := prefix
+	if len(n.Name) > 0 {
+		p = append(append([]string{}, prefix...), string(n.Name))
+	}
+	if n.Self > 0 {
+		cb(strings.Join(p, ";"), n.Self)
+	}
+	for _, c := range n.Children {
+		flatten(c, p, cb)
+	}
+}
+
+var intervalsSet bool
+
+func newStorage(in Input) (*storage.Storage, string, error) {
+	dir, err := os.MkdirTemp("", "agentb-c08-")
 	if err != nil {
-		panic(err)
+		return nil, "", err
 	}
-	put := func(name string, i int) {
-		key, _ := storage.ParseKey(name)
-		t := tree.New()
-		t.Insert([]byte("a;b"), 1)
-		from := int64(1600000000 + (i%1000)*10)
-		if err := st.Put(&storage.PutInput{StartTime: time.Unix(from, 0), EndTime: time.Unix(from+10, 0), Key: key, Val: t, SpyName: "gospy", SampleRate: 100, Units: "samples", AggregationType: "sum"}); err != nil {
-			panic(err)
+	// periodic tasks every 5 ms (eviction, write-back); retention and GC stay rare
+	storage.VerifSetIntervals(5*time.Millisecond, 5*time.Millisecond, 0, 0)
+	thr := 0.99 // evictionTask runs but never evicts
+	if in.Stream == "evict" {
+		thr = 0 // evicts 30% of every cache every 5 ms
+	}
+	st, err := storage.New(&config.Server{StoragePath: dir, CacheEvictThreshold: thr, CacheEvictVolume: 0.3,
+		MaxNodesSerialization: 2048, MaxNodesRender: 2048, BadgerLogLevel: "error"})
+	return st, dir, err
+}
+
+func sharedName(in Input) string {
+	if in.Labels {
+		return "shared{foo=bar}"
+	}
+	return "shared{}"
+}
+
+func readShared(st *storage.Storage, key *storage.Key, t0 time.Time, nslots int) readRec {
+	var rr readRec
+	rr.start = int64(time.Since(t0))
+	out, err := st.Get(&storage.GetInput{StartTime: time.Unix(baseTime, 0), EndTime: time.Unix(baseTime+int64(nslots)*10, 0), Key: key})
+	rr.end = int64(time.Since(t0))
+	if err != nil || out == nil || out.Tree == nil {
+		rr.nilOut = true
+		return rr
+	}
+	flatten(out.Tree.VerifDump(), nil, func(stack string, v uint64) {
+		switch {
+		case strings.HasPrefix(stack, "c;"):
+			rr.common += v
+		case strings.HasPrefix(stack, "u"):
+			rr.uniq = append(rr.uniq, fmt.Sprintf("%s=%d", stack[1:], v))
+		default:
+			rr.other += v
 		}
+	})
+	if out.Timeline != nil {
+		rr.timeline = append([]uint64{}, out.Timeline.Samples...)
 	}
-	put("app{foo=bar}", 0)
-	var ops int64
-	for r := 0; r < 8; r++ {
-		go func() {
-			key, _ := storage.ParseKey("app{foo=bar}")
-			for {
-				st.Get(&storage.GetInput{StartTime: time.Unix(1600000000, 0), EndTime: time.Unix(1600010000, 0), Key: key})
-				atomic.AddInt64(&ops, 1)
-			}
-		}()
+	return rr
+}
+
+// one unique stack and three common stacks under one frame: the frame "c" has three children (a slice with spare
+// capacity) and the unique stacks sort after it, so serializers walk through the shape that the work-list idiom
+// `append(node.ChildrenNodes, nodes...)` writes into
+func ingestProfile(w, j int) map[string]uint64 {
+	return map[string]uint64{fmt.Sprintf("u%d_%d", w, j): 1, "c;p": 1, "c;q": 1, "c;r": 1}
+}
+
+func put(st *storage.Storage, key *storage.Key, slot int, stacks map[string]uint64) error {
+	t := tree.New()
+	for s, v := range stacks {
+		t.Insert([]byte(s), v)
 	}
+	from := int64(baseTime + slot*10)
+	return st.Put(&storage.PutInput{StartTime: time.Unix(from, 0), EndTime: time.Unix(from+10, 0), Key: key, Val: t,
+		SpyName: "gospy", SampleRate: 100, Units: "samples", AggregationType: "sum"})
+}
+
+func watchdog(what string, d time.Duration) (cancel func()) {
+	done := make(chan struct{})
 	go func() {
-		for i := 0; ; i++ {
-			put(fmt.Sprintf("app{foo=bar,i=%d}", i%20), i)
-			atomic.AddInt64(&ops, 1)
-		}
-	}()
-	go func() {
-		for i := 0; ; i++ {
-			key, _ := storage.ParseKey(fmt.Sprintf("app{foo=bar,i=%d}", (i+10)%20))
-			st.Delete(&storage.DeleteInput{Key: key})
-			atomic.AddInt64(&ops, 1)
-		}
-	}()
-	last := int64(-1)
-	for t := 0; t < 80; t++ {
-		time.Sleep(250 * time.Millisecond)
-		cur := atomic.LoadInt64(&ops)
-		if cur == last {
-			fmt.Println("DEADLOCK at storage level: no progress for 250 ms after", cur, "operations, t =", t)
+		select {
+		case <-done:
+		case <-time.After(d):
 			buf := make([]byte, 1<<20)
 			buf = buf[:runtime.Stack(buf, true)]
+			fmt.Fprintf(os.Stderr, "C08 HANG (deadlock?) in %s: no completion after %v\n", what, d)
 			for _, g := range strings.Split(string(buf), "\n\n") {
-				if strings.Contains(g, "sync.(*RWMutex)") {
+				if strings.Contains(g, "sync.(*RWMutex)") || strings.Contains(g, "sync.(*Mutex)") {
 					lines := strings.Split(g, "\n")
-					out := []string{lines[0]}
+					fmt.Fprintln(os.Stderr, lines[0])
 					for _, l := range lines {
-						if strings.HasPrefix(l, "sync.(*RWMutex)") || strings.HasPrefix(l, "github.com/pyroscope-io/pyroscope/pkg/storage") {
-							out = append(out, "   "+strings.SplitN(l, "(0x", 2)[0])
+						if strings.HasPrefix(l, "sync.(") || strings.HasPrefix(l, "github.com/pyroscope-io/pyroscope/pkg/storage") {
+							fmt.Fprintln(os.Stderr, "   "+strings.SplitN(l, "(0x", 2)[0])
 						}
 					}
-					fmt.Println(strings.Join(out, "\n"))
 				}
 			}
 			os.Exit(3)
 		}
+	}()
+	return func() { close(done) }
+}
+
+func coqIDs(xs []string) string { // "w_j=count" -> (w, j, count)
+	items := make([]string, 0, len(xs))
+	sort.Strings(xs)
+	for _, x := range xs {
+		var w, j int
+		var c uint64
+		if _, err := fmt.Sscanf(x, "%d_%d=%d", &w, &j, &c); err == nil {
+			items = append(items, fmt.Sprintf("(%s, %s, %d)", lib.Nat(w), lib.Nat(j), c))
+		} else {
+			items = append(items, fmt.Sprintf("(%s, %s, %d)", lib.Nat(999), lib.Nat(999), 1))
+		}
+	}
+	return lib.List(items)
+}
+
+func coqRead(r readRec) string {
+	tl := make([]string, len(r.timeline))
+	for i, v := range r.timeline {
+		tl[i] = lib.N(v)
+	}
+	return fmt.Sprintf("{| rd_start := %s; rd_end := %s; rd_uniq := %s; rd_common := %d; rd_other := %d; rd_timeline := %s; rd_nil := %s |}",
+		lib.Z(r.start), lib.Z(r.end), coqIDs(r.uniq), r.common, r.other, lib.List(tl), lib.Bool(r.nilOut))
+}
+
+func runConcurrent(in Input) lib.Result {
+	st, dir, err := newStorage(in)
+	if err != nil {
+		return lib.Result{Crash: "storage.New: " + err.Error()}
+	}
+	defer os.RemoveAll(dir)
+	limit := 40 * time.Second
+	if in.Stream == "delete" {
+		limit = 12 * time.Second
+	}
+	cancel := watchdog(fmt.Sprintf("stream %s (writers %d, readers %d)", in.Stream, in.Writers, in.Readers), limit)
+	defer cancel()
+
+	r := rand.New(rand.NewSource(in.Seed))
+	shared, _ := storage.ParseKey(sharedName(in))
+	nIng := in.Writers * in.PerWriter
+	nslots := nIng + 2
+	// slot of ingest (w, j): all different (one tree per ingest at depth 0, aggregated above), or all equal
+	slotOf := func(w, j int) int {
+		if in.SameSlot {
+			return 1
+		}
+		return 1 + w*in.PerWriter + j
+	}
+	if !in.ColdStart {
+		// the shared series exists before anyone reads it
+		if err := put(st, shared, 0, map[string]uint64{"pre": 4}); err != nil {
+			return lib.Result{Crash: "pre-Put: " + err.Error()}
+		}
+	}
+
+	t0 := time.Now()
+	var wg sync.WaitGroup
+	ingests := make([][]ingestRec, in.Writers)
+	var writersDone int32
+	var putErr atomic.Value
+	reads := make([][]readRec, in.Readers)
+	var deleted int64
+
+	for w := 0; w < in.Writers; w++ {
+		wg.Add(1)
+		go func(w int) {
+			defer wg.Done()
+			own, _ := storage.ParseKey(fmt.Sprintf("own{w=%d}", w))
+			rw := rand.New(rand.NewSource(in.Seed + int64(w)*7919))
+			for j := 0; j < in.PerWriter; j++ {
+				if err := put(st, own, j, map[string]uint64{"own": 1}); err != nil {
+					putErr.Store(err.Error())
+				}
+				rec := ingestRec{w: w, j: j, slot: slotOf(w, j)}
+				rec.start = int64(time.Since(t0))
+				err := put(st, shared, rec.slot, ingestProfile(w, j))
+				rec.end = int64(time.Since(t0))
+				if err != nil {
+					putErr.Store(err.Error())
+				}
+				ingests[w] = append(ingests[w], rec)
+				if in.Stream == "delete" {
+					// keep the renders / ingests / deletes running against each other for about 1.5 s
+					time.Sleep(1500 * time.Millisecond / time.Duration(in.PerWriter))
+				} else if rw.Intn(3) == 0 {
+					time.Sleep(time.Duration(rw.Intn(300)) * time.Microsecond)
+				}
+			}
+		}(w)
+	}
+	var rwg sync.WaitGroup
+	for q := 0; q < in.Readers; q++ {
+		rwg.Add(1)
+		go func(q int) {
+			defer rwg.Done()
+			rq := rand.New(rand.NewSource(in.Seed + int64(q)*104729 + 1))
+			for atomic.LoadInt32(&writersDone) == 0 {
+				rd := readShared(st, shared, t0, nslots)
+				if len(reads[q]) < maxReads {
+					reads[q] = append(reads[q], rd)
+				} else if in.Stream != "delete" {
+					break
+				}
+				if in.Stream != "delete" && rq.Intn(2) == 0 {
+					time.Sleep(time.Duration(rq.Intn(200)) * time.Microsecond)
+				}
+			}
+		}(q)
+	}
+	var dwg sync.WaitGroup
+	if in.Stream == "delete" {
+		for x := 0; x < 6; x++ { // more renders through Intersection (two dimensions, map order)
+			dwg.Add(1)
+			go func() {
+				defer dwg.Done()
+				for atomic.LoadInt32(&writersDone) == 0 {
+					st.Get(&storage.GetInput{StartTime: time.Unix(baseTime, 0), EndTime: time.Unix(baseTime+1000, 0), Key: shared})
+				}
+			}()
+		}
+		// series that share both dimensions with the shared series are created and deleted all the time
+		dwg.Add(1)
+		go func() {
+			defer dwg.Done()
+			for i := 0; atomic.LoadInt32(&writersDone) == 0; i++ {
+				k, _ := storage.ParseKey(fmt.Sprintf("shared{foo=bar,tmp=%d}", i%4))
+				st.Delete(&storage.DeleteInput{Key: k})
+				atomic.AddInt64(&deleted, 1)
+			}
+		}()
+		dwg.Add(1)
+		go func() {
+			defer dwg.Done()
+			for i := 0; atomic.LoadInt32(&writersDone) == 0; i++ {
+				k, _ := storage.ParseKey(fmt.Sprintf("shared{foo=bar,tmp=%d}", (i+2)%4))
+				put(st, k, i%50, map[string]uint64{"tmp": 1})
+			}
+		}()
+	}
+	_ = r
+	wg.Wait()
+	atomic.StoreInt32(&writersDone, 1)
+	rwg.Wait()
+	dwg.Wait()
+
+	// quiescent: all ingests have returned
+	final := readShared(st, shared, t0, nslots)
+	ownTotals := make([]string, in.Writers)
+	for w := 0; w < in.Writers; w++ {
+		own, _ := storage.ParseKey(fmt.Sprintf("own{w=%d}", w))
+		out, _ := st.Get(&storage.GetInput{StartTime: time.Unix(baseTime, 0), EndTime: time.Unix(baseTime+int64(in.PerWriter+1)*10, 0), Key: own})
+		var tot uint64
+		if out != nil && out.Tree != nil {
+			flatten(out.Tree.VerifDump(), nil, func(s string, v uint64) { tot += v })
+		}
+		ownTotals[w] = lib.N(tot)
+	}
+	st.Close()
+
+	// ---- dump ----
+	ingTerms := []string{}
+	for w := range ingests {
+		for _, g := range ingests[w] {
+			ingTerms = append(ingTerms, fmt.Sprintf("{| ig_w := %s; ig_j := %s; ig_slot := %s; ig_start := %s; ig_end := %s |}",
+				lib.Nat(g.w), lib.Nat(g.j), lib.Nat(g.slot), lib.Z(g.start), lib.Z(g.end)))
+		}
+	}
+	readTerms := []string{}
+	overlaps, nreads := 0, 0
+	for q := range reads {
+		for _, rd := range reads[q] {
+			readTerms = append(readTerms, coqRead(rd))
+			nreads++
+			for w := range ingests {
+				for _, g := range ingests[w] {
+					if g.start < rd.end && rd.start < g.end {
+						overlaps++
+					}
+				}
+			}
+		}
+	}
+	perr := ""
+	if v := putErr.Load(); v != nil {
+		perr = v.(string)
+	}
+	coq := "{| k_stream := " + lib.Str(in.Stream) + "; k_writers := " + lib.Nat(in.Writers) + "; k_per_writer := " + lib.Nat(in.PerWriter) +
+		"; k_same_slot := " + lib.Bool(in.SameSlot) + "; k_cold := " + lib.Bool(in.ColdStart) +
+		"; k_ingests := " + lib.List(ingTerms) + "; k_reads := " + lib.List(readTerms) + "; k_final := " + coqRead(final) +
+		"; k_own_totals := " + lib.List(ownTotals) + "; k_put_error := " + lib.Bool(perr != "") + " |}"
+	return lib.Result{
+		Coq:        coq,
+		NonTrivial: overlaps > 0,
+		Feat: map[string]interface{}{"stream": in.Stream, "writers": in.Writers, "readers": in.Readers, "per_writer": in.PerWriter,
+			"labels": in.Labels, "cold_start": in.ColdStart, "same_slot": in.SameSlot, "procs": in.Procs,
+			"read_overlaps_write": overlaps > 0},
+		Obs: map[string]interface{}{"reads": nreads, "read_write_overlaps": overlaps, "final_common": final.common, "final_uniq": len(final.uniq),
+			"put_error": perr, "deletes": deleted, "wall_ms": time.Since(t0).Milliseconds()},
+	}
+}
+
+// deterministic schedule for the cache-miss race repaired by /repo 39795c3: a render of a series that does not exist yet is
+// held for 50 ms between its cache miss and the creation of its object (inside the cache's exported New field) while the
+// first ingest of the series runs; afterwards the ingest must be visible.
+func runGateMiss(in Input) lib.Result {
+	which := strings.TrimPrefix(in.Stream, "gate-miss-")
+	in2 := in
+	in2.Stream = "main"
+	st, dir, err := newStorage(in2)
+	if err != nil {
+		return lib.Result{Crash: "storage.New: " + err.Error()}
+	}
+	defer os.RemoveAll(dir)
+	cancel := watchdog("gate-miss "+which, 20*time.Second)
+	defer cancel()
+	shared, _ := storage.ParseKey("shared{}")
+	c := st.VerifCache(which)
+	orig := c.New
+	var calls int32
+	entered := make(chan struct{}, 4)
+	c.New = func(k string) interface{} {
+		if atomic.AddInt32(&calls, 1) == 1 {
+			entered <- struct{}{}
+			time.Sleep(50 * time.Millisecond)
+		}
+		return orig(k)
+	}
+	t0 := time.Now()
+	var rec ingestRec
+	if which == "segments" {
+		// the writer creates the segment (first call of New, held 50 ms after it listed the series in the dimension),
+		// the render misses the same segment meanwhile
+		ack := make(chan struct{})
+		go func() {
+			rec = ingestRec{w: 0, j: 0, slot: 1, start: int64(time.Since(t0))}
+			put(st, shared, 1, ingestProfile(0, 0))
+			rec.end = int64(time.Since(t0))
+			close(ack)
+		}()
+		<-entered
+		rd := readShared(st, shared, t0, 3)
+		<-ack
+		final := readShared(st, shared, t0, 3)
+		st.Close()
+		return gateResult(in, rec, rd, final)
+	}
+	done := make(chan readRec)
+	go func() { done <- readShared(st, shared, t0, 3) }()
+	<-entered
+	rec = ingestRec{w: 0, j: 0, slot: 1, start: int64(time.Since(t0))}
+	put(st, shared, 1, ingestProfile(0, 0))
+	rec.end = int64(time.Since(t0))
+	rd := <-done
+	final := readShared(st, shared, t0, 3)
+	st.Close()
+	return gateResult(in, rec, rd, final)
+}
+
+func gateResult(in Input, g ingestRec, rd, final readRec) lib.Result {
+	ing := fmt.Sprintf("{| ig_w := %s; ig_j := %s; ig_slot := %s; ig_start := %s; ig_end := %s |}",
+		lib.Nat(g.w), lib.Nat(g.j), lib.Nat(g.slot), lib.Z(g.start), lib.Z(g.end))
+	coq := "{| k_stream := " + lib.Str(in.Stream) + "; k_writers := " + lib.Nat(1) + "; k_per_writer := " + lib.Nat(1) +
+		"; k_same_slot := false; k_cold := true; k_ingests := " + lib.List([]string{ing}) + "; k_reads := " + lib.List([]string{coqRead(rd)}) +
+		"; k_final := " + coqRead(final) + "; k_own_totals := []; k_put_error := false |}"
+	return lib.Result{Coq: coq, NonTrivial: true,
+		Feat: map[string]interface{}{"stream": in.Stream},
+		Obs:  map[string]interface{}{"final_common": final.common, "final_uniq": len(final.uniq)}}
+}
+
+// dimension level: renders intersecting two dimensions in both orders, one inserting and one deleting writer, 1 s.
+// With read locks of several dimensions held together (before /repo 560e1ec) this stops making progress within ~0.5 s.
+func runDims(in Input) lib.Result {
+	a, b := dimension.New(), dimension.New()
+	for i := 0; i < 50; i++ {
+		a.Insert(dimension.Key(fmt.Sprintf("k%03d", i)))
+		b.Insert(dimension.Key(fmt.Sprintf("k%03d", i)))
+	}
+	var ops, stop int64
+	var bad int64
+	var wg sync.WaitGroup
+	for r := 0; r < in.Readers; r++ {
+		wg.Add(1)
+		go func(r int) {
+			defer wg.Done()
+			rr := rand.New(rand.NewSource(in.Seed + int64(r)))
+			for atomic.LoadInt64(&stop) == 0 {
+				var ks []dimension.Key
+				if rr.Intn(2) == 0 {
+					ks = dimension.Intersection(a, b)
+				} else {
+					ks = dimension.Intersection(b, a)
+				}
+				n := 0
+				for _, k := range ks { // the 50 permanent keys are in both dimensions at all times
+					if k[0] == 'k' {
+						n++
+					}
+				}
+				if n != 50 {
+					atomic.AddInt64(&bad, 1)
+				}
+				atomic.AddInt64(&ops, 1)
+			}
+		}(r)
+	}
+	wg.Add(2)
+	go func() {
+		defer wg.Done()
+		for i := 0; atomic.LoadInt64(&stop) == 0; i++ {
+			a.Insert(dimension.Key(fmt.Sprintf("w%03d", i%100)))
+			b.Insert(dimension.Key(fmt.Sprintf("w%03d", i%100)))
+			atomic.AddInt64(&ops, 1)
+		}
+	}()
+	go func() {
+		defer wg.Done()
+		for i := 0; atomic.LoadInt64(&stop) == 0; i++ {
+			b.Delete(dimension.Key(fmt.Sprintf("w%03d", i%100)))
+			a.Delete(dimension.Key(fmt.Sprintf("w%03d", i%100)))
+			atomic.AddInt64(&ops, 1)
+		}
+	}()
+	last, still, stuck := int64(-1), 0, false
+	for t := 0; t < 8 && !stuck; t++ {
+		time.Sleep(125 * time.Millisecond)
+		cur := atomic.LoadInt64(&ops)
+		if cur == last {
+			still++
+			if still >= 4 { // half a second without a single operation by ten goroutines
+				stuck = true
+			}
+			t--
+		} else {
+			still = 0
+		}
 		last = cur
 	}
-	fmt.Println("no deadlock in 20 s;", last, "operations")
+	atomic.StoreInt64(&stop, 1)
+	if stuck {
+		fmt.Fprintf(os.Stderr, "C08 HANG: dimension.Intersection / Insert / Delete made no progress for 500 ms after %d operations\n", last)
+		os.Exit(3)
+	}
+	wg.Wait()
+	coq := "{| k_stream := " + lib.Str("dims") + "; k_writers := 0%nat; k_per_writer := 0%nat; k_same_slot := false; k_cold := false; k_ingests := []; k_reads := []" +
+		"; k_final := {| rd_start := 0%Z; rd_end := 0%Z; rd_uniq := []; rd_common := 0; rd_other := " + lib.N(uint64(bad)) + "; rd_timeline := []; rd_nil := false |}" +
+		"; k_own_totals := []; k_put_error := false |}"
+	return lib.Result{Coq: coq, NonTrivial: true, Feat: map[string]interface{}{"stream": "dims", "readers": in.Readers},
+		Obs: map[string]interface{}{"ops": last, "wrong_intersections": bad}}
+}
+
+// deterministic storage-level schedule for "two goroutines serialize one cached tree at the same time": the write-back
+// goroutine is delayed (by a sleep, i.e. without creating a happens-before edge) just before it serializes tree K; meanwhile
+// a render touches K (the lfu clears its persisted mark) and an eviction hands K to the eviction goroutine, which
+// serializes it; then the write-back goroutine serializes K too. Both hold only K's read lock.
+func runGateTreeSave(in Input) lib.Result {
+	storage.VerifDisablePeriodicTasks()
+	dir, err := os.MkdirTemp("", "agentb-c08-")
+	if err != nil {
+		return lib.Result{Crash: err.Error()}
+	}
+	defer os.RemoveAll(dir)
+	st, err := storage.New(&config.Server{StoragePath: dir, CacheEvictThreshold: 0.99, CacheEvictVolume: 0.3,
+		MaxNodesSerialization: 2048, MaxNodesRender: 2048, BadgerLogLevel: "error"})
+	if err != nil {
+		return lib.Result{Crash: "storage.New: " + err.Error()}
+	}
+	cancel := watchdog("gate-tree-save", 20*time.Second)
+	defer cancel()
+	var treeSaves int32
+	var gmu sync.Mutex
+	waiting := map[string]chan struct{}{}
+	st.VerifWrapCaches(func(cacheName, key string) {
+		if cacheName != "trees" {
+			return
+		}
+		atomic.AddInt32(&treeSaves, 1)
+		// rendezvous: the first saver of a tree waits (at most 30 ms) for a second saver of the same tree; both are
+		// released by the same close() and enter Serialize at the same moment, unordered with respect to each other
+		gmu.Lock()
+		ch, ok := waiting[key]
+		if ok {
+			delete(waiting, key)
+			gmu.Unlock()
+			close(ch)
+			return
+		}
+		ch = make(chan struct{})
+		waiting[key] = ch
+		gmu.Unlock()
+		select {
+		case <-ch:
+		case <-time.After(1 * time.Millisecond):
+			gmu.Lock()
+			delete(waiting, key)
+			gmu.Unlock()
+		}
+	})
+	shared, _ := storage.ParseKey("shared{}")
+	t0 := time.Now()
+	rec := ingestRec{w: 0, j: 0, slot: 1, start: int64(time.Since(t0))}
+	trees := st.VerifCache("trees")
+	rounds := 40
+	for i := 0; i < rounds; i++ {
+		put(st, shared, 1+i, ingestProfile(0, i))
+		trees.WriteBack()                          // one tree goes to the write-back goroutine, which waits at the rendezvous
+		for j := 0; j <= i; j++ { // touches every bucket's own tree: persisted marks cleared
+			st.Get(&storage.GetInput{StartTime: time.Unix(baseTime+int64(1+j)*10, 0), EndTime: time.Unix(baseTime+int64(2+j)*10, 0), Key: shared})
+		}
+		trees.Evict(1.0)                           // every tree goes to the eviction goroutine, one after the other
+	}
+	rec.end = int64(time.Since(t0))
+	time.Sleep(50 * time.Millisecond)
+	final := readShared(st, shared, t0, rounds+2)
+	st.Close()
+	res := gateResult(in, rec, final, final)
+	res.Coq = "" // evidence run only (race detector); nothing for the oracle
+	res.Obs = map[string]interface{}{"tree_saves": atomic.LoadInt32(&treeSaves), "final_common": final.common, "final_uniq": len(final.uniq)}
+	return res
+}
+
+func run(in Input) lib.Result {
+	if in.Procs > 0 {
+		prev := runtime.GOMAXPROCS(in.Procs)
+		defer runtime.GOMAXPROCS(prev)
+	}
+	if in.Writers < 1 {
+		in.Writers = 1
+	}
+	if in.Readers < 1 {
+		in.Readers = 1
+	}
+	if in.PerWriter < 1 {
+		in.PerWriter = 1
+	}
+	if strings.HasPrefix(in.Stream, "gate-miss-") {
+		return runGateMiss(in)
+	}
+	if in.Stream == "dims" {
+		return runDims(in)
+	}
+	if in.Stream == "gate-tree-save" {
+		return runGateTreeSave(in)
+	}
+	if in.Stream == "delete" {
+		in.Labels = true
+	}
+	return runConcurrent(in)
+}
+
+func gen(r *rand.Rand, idx int, tier string) Input {
+	in := Input{Stream: "main", Writers: lib.Range(r, 1, 8), Readers: lib.Range(r, 1, 8), PerWriter: lib.Range(r, 2, 6),
+		Labels: lib.Chance(r, 0.5), ColdStart: lib.Chance(r, 0.5), SameSlot: lib.Chance(r, 0.3),
+		Procs: lib.Pick(r, []int{2, 4, 8, 16}), Seed: r.Int63()}
+	switch idx % 6 {
+	case 4:
+		in.Stream = "evict"
+	case 5:
+		in.Stream = "delete"
+	}
+	return in
+}
+
+func main() {
+	logrus.SetOutput(io.Discard)
+	lib.Main(lib.Harness[Input]{Prop: "C08", Quick: 36, Thorough: 600, Gen: gen, Run: run})
 }
